@@ -189,14 +189,18 @@ class E:
             out += k.cols()
         return out
 
-    def subqueries(self):
-        out = [self.query] if self.kind == "scalar" else []
+    def subqueries(self, risky_only=False):
+        """risky_only leaves out the THEN operands of a multi-branch CASE that is the whole (aliased) select item: those the tool does find"""
+        out = [self.query] if self.kind == "scalar" and not (risky_only and getattr(self, "then_operand", False)) else []
         for k in self.kids:
-            out += k.subqueries()
+            out += k.subqueries(risky_only)
         return out
 
     def render(self, r):
         k = self.kind
+        if k == "case_multi":
+            arms = " ".join(f"when {self.kids[i].render(r)} > {i} then {self.kids[i + 1].render(r)}" for i in range(0, len(self.kids), 2))
+            return f"case {arms} else 0 end"
         if k == "col":
             return (r.ident(self.q) + "." if self.q else "") + r.ident(self.name)
         if k == "lit":
@@ -1334,7 +1338,7 @@ def risk(stmt, ds=None):
                         add("join.parenthesised_group", {r2.full(ds)} if r2.kind == "base" else r2.query.reads(ds) if r2.kind == "derived" else set())
         for it in q.items:
             if not it.is_star:
-                for s in it.expr.subqueries():
+                for s in it.expr.subqueries(risky_only=it.expr.kind == "case_multi" and bool(it.alias)):
                     add("select.scalar_subquery", s.reads(ds))
         if q.having is not None:
             for s in q.having.subqueries():
